@@ -84,7 +84,7 @@ def explore(ctx, extended=False, focus=None):
                "with extreme witness values/coefficients; pairs of traces with equal public values and shape but different private "
                "values (circuit.zkif must be byte-identical); decoded trees vs the Lean model and vs the clause checks; distinct = "
                "(backend, source, #pub, #priv, #constraints, value classes)")
-    nprog = ctx.n(40, 800); ndir = ctx.n(40, 800)
+    nprog = ctx.n(120, 3200); ndir = ctx.n(120, 3200)
     for be, key in BACKENDS.items():
         p = ctx.consts[key] if ctx.consts and ctx.consts.get(key) else None
         w = common.Worker(be, "worker_files.py")
